@@ -189,11 +189,11 @@ func runWalk(c *vf.Ctx, b binding, steps []step, duplex bool, src string) {
 		b.setRegl(x, uint32(0)-off-1)
 		data, seq, err := b.seal(x, "r")
 		if err != nil || seq != uint32(0)-off {
-			c.Broken("positioning failed: seq %d err %v", seq, err)
+			c.Broken("positioning failed: seq %d err %v%s", seq, err, viaOf(b))
 			return
 		}
 		if !b.unseal(x, data) {
-			c.Broken("positioning frame did not unseal")
+			c.Broken("positioning frame did not unseal%s", viaOf(b))
 			return
 		}
 	}
@@ -203,8 +203,8 @@ func runWalk(c *vf.Ctx, b binding, steps []step, duplex bool, src string) {
 	history := []string{}
 	report := func(kind, what string, st step) {
 		h := append([]string(nil), history...)
-		c.Violation(vf.Key(kind, b.name(), st.A.Cls), fmt.Sprintf("%s (%s, start offset %d, duplex=%v, step %d of %s): %s", kind, b.name(), off, duplex, st.I, src, what),
-			map[string]any{"binding": b.name(), "start_offset": off, "duplex": duplex, "steps": h, "spec_step": st.A}, nil)
+		c.Violation(vf.Key(kind, b.name(), st.A.Cls), fmt.Sprintf("%s (%s, start offset %d, duplex=%v, step %d of %s): %s%s", kind, b.name(), off, duplex, st.I, src, what, viaOf(b)),
+			map[string]any{"binding": b.name(), "start_offset": off, "duplex": duplex, "steps": h, "spec_step": st.A, "installed": viaOf(b)}, nil)
 	}
 	dbgRolls := 0
 	for _, st := range steps {
@@ -306,8 +306,8 @@ func runWalk(c *vf.Ctx, b binding, steps []step, duplex bool, src string) {
 		outK, _ := b.keys(x)
 		_, inK := b.keys(peer)
 		if !bytes.Equal(outK, inK) {
-			c.Violation(vf.Key("keys-out-of-sync", b.name()), fmt.Sprintf("%s: after all frames were delivered, %s's out key differs from its peer's in key (start offset %d, duplex=%v)", b.name(), x, off, duplex),
-				map[string]any{"binding": b.name(), "start_offset": off, "steps": history}, nil)
+			c.Violation(vf.Key("keys-out-of-sync", b.name()), fmt.Sprintf("%s: after all frames were delivered, %s's out key differs from its peer's in key (start offset %d, duplex=%v%s)", b.name(), x, off, duplex, viaOf(b)),
+				map[string]any{"binding": b.name(), "start_offset": off, "steps": history, "installed": viaOf(b)}, nil)
 		}
 	}
 }
@@ -315,7 +315,7 @@ func runWalk(c *vf.Ctx, b binding, steps []step, duplex bool, src string) {
 func main() { vf.Main("C15", "model_checking", run) }
 
 func run(c *vf.Ctx) {
-	c.Rule("M: TLC exhaustive with scaled constants (Wrap 16, RollLo 3, RollHi 12, W 3): one direction, <=7 seals, displacement 2, duplicates; and duplex, <=4 seals per end, displacement 1. R: TLC -simulate walks with the real thresholds (255, 2^32-256 projected onto 2^20), displacement 8, start offsets within 300 of the wrap, one direction and duplex, executed on real end-to-end sessions and link sessions. T: 2..64 goroutines sealing concurrently across the wrap, every frame attributed to its key by trial decryption, uniqueness of (key, class, seq) judged by TLC. distinct = distinct (binding, start offset, walk) plus distinct (goroutines, offset) runs")
+	c.Rule("M: TLC exhaustive with scaled constants (Wrap 16, RollLo 3, RollHi 12, W 3): one direction, <=7 seals, displacement 2, duplicates; and duplex, <=4 seals per end, displacement 1. R: TLC -simulate walks with the real thresholds (255, 2^32-256 projected onto 2^20), displacement 8, start offsets within 300 of the wrap, one direction and duplex, executed on real end-to-end sessions and link sessions - keyed by one exchange in place and by histories of 1..3 installs of the kinds the router performs (hello: separate object + SetEncryptionSession, server in place; link handshake: SetEncryptionSession on both ends; keys removed first; a wrap between two installs), which are also followed by in-order streams across the wrap in both directions. T: 2..64 goroutines sealing concurrently across the wrap, every frame attributed to its key by trial decryption, uniqueness of (key, class, seq) judged by TLC. distinct = distinct (binding, start offset, walk) plus distinct (goroutines, offset) runs")
 	c.Assume("cross-class reordering that lets a post-wrap priority frame overtake the first post-wrap regular frame is outside the claim: the wire format carries no key epoch, so no receiver can open it before it has seen the wrap (DESIGN C15)", "a priority class wrapping on its own is refused by the sender and outside the claim", "keys are attributed by trial decryption with the keys read through the exported test helper")
 
 	for _, cfg := range []string{"KeyRollover_MC.cfg", "KeyRollover_MCDuplex.cfg"} {
@@ -336,6 +336,10 @@ func run(c *vf.Ctx) {
 
 	a := world.NewParty(world.NewPrivacyIdentity(), config.Store{})
 	b := world.NewParty(world.NewPrivacyIdentity(), config.Store{})
+
+	// the driver's PRNG for the key installation histories (install.go)
+	irng := rand.New(rand.NewSource(c.Seed + 1515))
+	installedWalks := 0
 
 	for _, sc := range []struct {
 		cfg    string
@@ -385,6 +389,21 @@ func run(c *vf.Ctx) {
 				runWalk(c, newLink(a, b), w, sc.duplex, sc.cfg)
 				c.Distinct(fmt.Sprintf("link|%s|%d|%d", sc.cfg, w[0].Start, wi))
 			}
+			// the same walk on sessions whose keys were installed the ways the router installs them, one
+			// install after the other (install.go)
+			for k := 0; k < c.Pick(2, 3); k++ {
+				ie, il, ok := newInstalled(c, a, b, randomHistory(irng), irng)
+				if !ok {
+					continue
+				}
+				installedWalks++
+				runWalk(c, ie, w, sc.duplex, sc.cfg)
+				c.Distinct(fmt.Sprintf("e2e-installed|%s|%d|%d|%s", sc.cfg, w[0].Start, wi, ie.hist))
+				if il != nil && !hasPrio {
+					runWalk(c, il, w, sc.duplex, sc.cfg)
+					c.Distinct(fmt.Sprintf("link-installed|%s|%d|%d|%s", sc.cfg, w[0].Start, wi, il.hist))
+				}
+			}
 			if wi == 0 {
 				c.Sample(map[string]any{"kind": "simulation walk", "cfg": sc.cfg, "start_offset": w[0].Start, "steps": len(w), "first": w[:min(6, len(w))]})
 			}
@@ -403,6 +422,12 @@ func run(c *vf.Ctx) {
 		runLinkStraight(c, lb, off)
 		_ = w
 	}
+
+	// key installation histories, then in-order streams across the wrap (install.go)
+	nh := runInstallHistories(c, a, b, irng)
+	c.AddTraces(nh)
+	c.Stage("R/installs", map[string]any{"histories": nh, "walks_on_installed_keys": installedWalks})
+	c.Logf("R installs: %d key installation histories followed by in-order streams across the wrap; %d simulation walks on installed keys", nh, installedWalks)
 
 	// ---- T: concurrent sealers ----
 	var events []any
